@@ -17,9 +17,9 @@ package providers
 //@ stable OIDCProvider.* ProviderData.Verifier ProviderData.AllowedGroups ProviderData.EmailClaim ProviderData.UserClaim
 //@ stable ProviderData.GroupsClaim ProviderData.AllowUnverifiedEmail ProviderData.ProfileURL ProviderData.SkipClaimsFromProfileURL
 //@ stable ProviderData.CodeChallengeMethod ProviderData.LoginURL ProviderData.RedeemURL ProviderData.ClientID
-//@ nonnil OIDCProvider.ProviderData KeycloakOIDCProvider.OIDCProvider
+//@ nonnil OIDCProvider.ProviderData KeycloakOIDCProvider.OIDCProvider LoginGovProvider.PubJWKURL
 //@ stable MicrosoftEntraIDProvider.* KeycloakOIDCProvider.OIDCProvider ADFSProvider.OIDCProvider ADFSProvider.oidcRefreshFunc
-//@ stable GitLabProvider.OIDCProvider GitLabProvider.oidcRefreshFunc
+//@ stable GitLabProvider.OIDCProvider GitLabProvider.oidcRefreshFunc LoginGovProvider.PubJWKURL
 
 // the fields declared stable above are written by constructors only
 //@ prop C04 C05 C14
@@ -381,3 +381,38 @@ package providers
 //@ scan[provider-group-options-are-added-by-constructors-only] callers (*ProviderData).addAllowedGroups providers.NewGitLabProvider providers.NewKeycloakProvider providers.NewGoogleProvider
 //@ scan[allowed-group-entries-written-by-the-setters-only] slice-field-frozen ProviderData.AllowedGroups providers.(*ProviderData).setAllowedGroups providers.(*ProviderData).addAllowedGroups providers.(*KeycloakOIDCProvider).addAllowedRoles providers.(*GitLabProvider).setAllowedProjects
 
+
+// ------------------------------------------------------------------ C14 / C19: provider-specific decoders of what the identity provider sent:
+// a missing or wrongly typed piece is an error (or is skipped), never a crash
+//@ func claimsFromIDToken
+//@ safety
+//@ prop C14 C19 C04
+//@ ensures[a-token-without-a-payload-segment-is-an-error] len(strings.Split(idToken, ".")) < 2 ==> ret1 != nil && ret0 == nil
+//@ ensures[undecodable-payload-is-an-error] (called(DecodeString) && ret1(DecodeString) != nil) || (called(json.Unmarshal) && ret(json.Unmarshal) != nil)
+//@     ==> ret1 != nil && ret0 == nil
+//@ ensures[claims-only-with-a-verified-email] ret1 == nil ==> ret0 != nil && ret0.Email != "" && ret0.EmailVerified
+
+// `nonnil LoginGovProvider.PubJWKURL`: configure, which every constructed login.gov provider went through, parses it
+//@ func (*LoginGovProvider).configure
+//@ prop C19 C14
+//@ ensures[nonnil:the-key-url-is-parsed-first] ret0 == nil ==> p.PubJWKURL != nil
+//@ func NewLoginGovProvider
+//@ prop C19 C14
+//@ ensures[nonnil:only-configured-providers-are-returned] ret1 == nil ==> ret0 != nil && called(configure) && ret(configure) == nil && recv(configure) == ret0
+//@ prop C19
+//@ scan[nonnil:login-gov-providers-allocated-by-the-constructor] alloc-of providers.LoginGovProvider providers.NewLoginGovProvider
+//@ scan[nonnil:the-key-url-is-written-by-configure-only] field-writers LoginGovProvider.PubJWKURL providers.(*LoginGovProvider).configure
+
+//@ func checkNonce$1
+//@ safety
+//@ prop C14 C19
+//@ ensures[a-key-or-an-error] called(UnmarshalInto) && ret(UnmarshalInto) != nil ==> ret1 != nil && ret0 == nil
+
+//@ func getClientRoles
+//@ safety
+//@ prop C14 C19
+
+//@ func getEmailFromJSON
+//@ safety
+//@ prop C14 C19
+//@ ensures[no-address-is-an-error] ret1 == nil ==> called(String#0)
